@@ -3,6 +3,7 @@
 package sim
 
 import (
+	"encoding/hex"
 	"sync"
 
 	"github.com/blinklabs-io/gouroboros/ledger"
@@ -55,4 +56,32 @@ func fixBlocks() []fixBlock {
 		}
 	})
 	return fixBlocksList
+}
+
+// validConwayBlock is a Conway block that passes ledger.VerifyBlock: the real
+// mainnet header of block 10882991 (the repository's own fixture in
+// ledger/verify_block_test.go, valid under validConwayEta0 with 129600 slots
+// per KES period) with an empty body: [header, [], [], {}, []].
+const validConwayEta0 = "4ef95a10f639d0cf16bb963c3a580d4bf2a95b6ae7848702665884843e3c661d"
+
+const validConwayHeaderHex = "828a1a00a60faf1a0817580c58204eac1e7264c0e80436b04687e75d46d6a0d6b2338c2abb73a14fafbd689f69b2582012209e0b93f0128f670c9a02781c5466c4c4be003da3a51344b6a94f709ce51f58209c1a5fc5dec0a4b822d5a3b254ce9b168299479127aadcf97506ef257517fff682584023c2d70c24c44041644f5152f7e8a1bb580e516eb8e73c7df287116adb5f009c0c001feccfeebdf34c2275d1fce859c6c46182631b6306d5fd2724ac7ab1c6be58500dbe31ef7c00c34b6522e983d223e05075359cb170668d960b8cebfced178287ee6ca5cfc6e8e60aec97fd197aebfefc24aae695680631d575c6dacdfd9efc5687e46eb2a5c04a755c7f260af9ef830819c5ea5820d2b74b6333637801f2e9c7265792d5b8fc1647f9056d67c769dbac27f25f2fd08458200946347d22a3b6da29d79102424973c932b898808ff2436fa138df102484230a0a1904165840c75619c3ebad0758349eb1dedc154a8cd280d8189d6da973b4a147b0cdb0f60442d493feeba64167a05b5fc40bc695192bf1c08afad3c07ebd33cb5925f378018209015901c00a8442332bd3f33a4d78fe2736a75110b528a1e7501bc7887910d1475fc0e425f49a84f94e98f87047916cf622f3db1f61b60c5f06709769f98c4cc67de8f50c320c6772b647ac9916765b6985d4eafccb54e71064d01df41f8d0638ed5cd62b7b6e49ba15dd87cc687ab87d3fb22490d355e8fa9c5f7c24ed88b800fcc4cb1f1b54e65b5ba82c442f4643caadc86583072b8b6956f4f9a4530c29873f7231605efd7a7f961a863530512ef86b50f9b1004748c31fa07978f2ece7d8e76ffde67d713015824b28e19f05f0383c2def3cdeb67247f33f5eae329c38a375b2eb06a586dcc2e102a776a6deaad1741f2a7f5aa604074698e876afab4455278fd84a1db5768078e2848cc85e3c8a0b48630a2622832ecd2dbb3c505df2a70b93b49ce99616f601e5e2004a8ce8926319c23f2a26ac8550cb1c05c9d2d25fc5fcd122fc35b057a71d6e961250c99b19a7bfd9acdc60a8151d6c81ef2d7d69a62fd0f17d184dd753cce9a2e9c32b53baf317e31c6c5e3cf8ea8b203b413ae8b0253db53d0cbe19b0f0547a0e67d3591d1cade6ceb4a47779ba4a09e7526280acb62200f42c98f6185ea9da3daf47aa3d10ffe5307331fa3430af6c6361154943c39375"
+
+var validConwayOnce sync.Once
+var validConway fixBlock
+
+func validConwayBlock() fixBlock {
+	validConwayOnce.Do(func() {
+		hdr, err := hex.DecodeString(validConwayHeaderHex)
+		if err != nil {
+			panic(err)
+		}
+		data := append(append([]byte{0x85}, hdr...), 0x80, 0x80, 0xa0, 0x80)
+		b, err := ledger.NewBlockFromCbor(ledger.BlockTypeConway, data, lcommon.VerifyConfig{SkipBodyHashValidation: true})
+		if err != nil {
+			panic("harness: valid conway block does not decode: " + err.Error())
+		}
+		h := b.Hash().Bytes()
+		validConway = fixBlock{Era: "conway-valid", Type: ledger.BlockTypeConway, Data: data, Hash: h, Slot: b.SlotNumber(), Point: pcommon.NewPoint(b.SlotNumber(), h)}
+	})
+	return validConway
 }
